@@ -29,6 +29,7 @@ type step struct {
 	Fresh bool     `json:"fresh,omitempty"` // damage: restore all shard files to their as-written content first
 	// damage: this step and the read that follows it may be left out when the crash gate says so (see crashGate)
 	Skippable bool `json:"skippable,omitempty"`
+	Span      int  `json:"span,omitempty"` // number of following steps that belong to this damage step's case (default 1)
 }
 
 type traceplan struct {
